@@ -616,9 +616,11 @@ impl<'tcx> Cx<'tcx> {
                     ("doc", js(&self.docs(f.did))),
                 ]));
             }
+            let discr = if adt.is_enum() { adt.discriminant_for_variant(tcx, vi).val.to_string() } else { String::from("0") };
             variants.push(obj(vec![
                 ("name", js(&v.name.to_string())),
                 ("idx", jn(vi.as_usize())),
+                ("discr", js(&discr)),
                 ("fields", arr(fields)),
             ]));
         }
